@@ -227,9 +227,19 @@ def run(rep):
     # ---- R08.e -----------------------------------------------------------
     rep.rule('R08.e', 'the error serialisers never use error text as a format template (the fallback renderer runs the same code, '
                       'so a raising serialiser cannot be rescued and the exception reaches the WSGI server)')
-    from .c09 import check_template_constancy
+    from .c09 import check_template_constancy, check_escape_total
     if check_template_constancy(rep, 'R08.e') < 3:
         raise AnalysisError('format sinks in the to_* serialisers not found')
+    check_escape_total(rep, 'R08.e')
+
+    # ---- R08.f -----------------------------------------------------------
+    rep.rule('R08.f', 'dispatch calls route.match_path outside its try: converters there must run under a handler (a segment that '
+                      'matches the type pattern but fails conversion is "no match", not an exception escaping to the server)')
+    from .c05 import check_match_path_no_raise
+    check_match_path_no_raise(rep, 'R08.f')
+    mp_h = protected_by(f, dv.match_st, 'Exception')
+    rep.ok('R08.f', fkey(f, 'match_path call site'), 'route.match_path(...) is called %s the protected region of dispatch'
+           % ('inside' if mp_h is not None else 'outside'), app, dv.match_st)
 
 
 def check_no_shared_store(rep, rule, rp=None):
